@@ -58,6 +58,10 @@ func (d *fakeDB) GetIPInfo(ip net.IP) (ipinfo.IPInfo, error) {
 	if d.mode == "fails" {
 		return ipinfo.IPInfo{}, errors.New("db lookup failed")
 	}
+	if strings.HasPrefix(d.mode, "fails:") {
+		// a partial failure: the country was found, the ASN lookup failed (what the mmdb-backed map does)
+		return ipinfo.IPInfo{CountryCode: ipinfo.CountryCode(strings.TrimPrefix(d.mode, "fails:"))}, errors.New("asn lookup failed")
+	}
 	cc := strings.TrimPrefix(d.mode, "answers:")
 	return ipinfo.IPInfo{CountryCode: ipinfo.CountryCode(cc), ASN: ipinfo.ASN{}}, nil
 }
@@ -150,7 +154,7 @@ func metricsEngine(rng *Rng, n int, out *Out, args map[string]string) {
 	slog.SetDefault(slog.New(slog.NewTextHandler(io.Discard, nil)))
 	for c := 0; c < n; c++ {
 		r := rng.Fork()
-		dbMode := Pick(r, []string{"disabled", "answers:US", "answers:", "fails", "answers:ZQ"})
+		dbMode := Pick(r, []string{"disabled", "answers:US", "answers:", "fails", "answers:ZQ", "fails:BR"})
 		var db ipinfo.IPInfoMap
 		fdb := &fakeDB{mode: dbMode}
 		if dbMode != "disabled" {
@@ -506,7 +510,7 @@ func checkNoClientAddr(out *Out, fams map[string]*family, forms []addrForm) {
 }
 
 func ipinfoEngine(rng *Rng, n int, out *Out, args map[string]string) {
-	dbs := []string{"disabled", "answers:US", "answers:", "fails", "answers:XK"}
+	dbs := []string{"disabled", "answers:US", "answers:", "fails", "answers:XK", "fails:BR"}
 	emit := func(a net.Addr, dbMode string) {
 		f := classifyAddr(a)
 		var db ipinfo.IPInfoMap
@@ -535,7 +539,7 @@ func ipinfoEngine(rng *Rng, n int, out *Out, args map[string]string) {
 			switch {
 			case !global:
 				want = "XL"
-			case dbMode == "fails":
+			case strings.HasPrefix(dbMode, "fails"):
 				want = "XD"
 			case dbMode == "answers:":
 				want = "ZZ"
